@@ -452,6 +452,18 @@ class GeoStoreMachine(StoreMachine):
                         geo.set_column_num_layers(col)
                 geo.setup_block_name_index()
                 geo.setup_block_connection_name_index()
+            if sub2 % 13 == 5:
+                # a geometry with a hole: reduce() to all but one interior column
+                bn = set(n.name for n in geo.boundary_nodes)
+                inner = [c for c in geo.columnlist if not any(n.name in bn for n in c.node)]
+                if inner:
+                    hole = inner[sub2 % len(inner)]
+                    try:
+                        geo.reduce([c for c in geo.columnlist if c is not hole])
+                        ctx.probes['new_geometry_with_a_hole'] += 1
+                    except Exception as e:
+                        raise Violation('EXC', 'reduce() to all but one interior column raised %s'
+                                        % _short_tb(e))
             if sub2 % 11 in (3, 4):
                 # layer centres that are not the mid-elevation, among them a centre at 0.00
                 for lay in geo.layerlist[1:]:
